@@ -580,8 +580,8 @@ def r6(ctx, cfg):
             inner = dict(envs[0][2]).get("data", ("?",))
             from_proc = contains(inner, lambda x: x[0] == "some" and peel(x[1])[0] == "field" and peel(x[1])[2] == "data" and same_origin(peel(x[1])[1], proc)) and \
                 not contains(inner, lambda x: x[0] == "agg" and x[1].startswith(("wasm::ExecuteResponse", "wasm::InstantiateResponse")))
-            encoded = contains(pay, lambda x: (x[0] == "call" and x[1].startswith("prost::Message::encode")) or
-                               (x[0] == "mutby" and x[1].startswith("prost::Message::encode")))
+            ENC = ("prost::Message::encode", "prost::Message::encode_to_vec")       # (not `encoded_len`, which only sizes the buffer)
+            encoded = contains(pay, lambda x: (x[0] == "call" and x[1] in ENC) or (x[0] == "mutby" and x[1] in ENC))
             return from_proc and encoded
         n = 0
         for val0, conds0, site0 in q.value_cases(P, f, 0):
@@ -615,6 +615,23 @@ def r6(ctx, cfg):
                        "Ok(..) returns a processed response whose data is not exactly wrapped once: %s" % fmt(raw)[:160], fn=f,
                        line=line, sample="Ok(x with data: x.data.map(execute-response envelope))")
         ctx.ob(R, key, "two-wrapped-returns", n == 2, "expected 2 wrapped returns (Execute, Migrate), found %d" % n, fn=f, sample="2")
+    # what instantiate_response makes: the protobuf encoding of InstantiateResponse { address: the new address, data: the contract's data }
+    g = F.fn("wasm::instantiate_response")
+    if g is not None:
+        rv = P.ret(g)
+        envs = []
+        contains(rv, lambda x: envs.append(x) if (x[0] == "mutby" and x[1] in ("prost::Message::encode", "prost::Message::encode_to_vec")) else False)
+        contains(rv, lambda x: envs.append(x) if (x[0] == "call" and x[1] == "prost::Message::encode_to_vec") else False)
+        ok = False
+        for m in envs:
+            env = peel(m[2][0]) if m[2] else ("?",)
+            if env[0] == "agg" and env[1].startswith("wasm::InstantiateResponse"):
+                dd = dict(env[2])
+                ok = contains(dd.get("address", ("?",)), lambda x: x[0] == "param" and x[1] == 2) and contains(dd.get("data", ("?",)), lambda x: x[0] == "param" and x[1] == 1) and \
+                    not contains(dd.get("address", ("?",)), lambda x: x[0] == "param" and x[1] == 1)
+        ctx.ob(R, "wasm::instantiate_response", "encodes InstantiateResponse{address, data}", ok,
+               "instantiate_response does not return the encoding of InstantiateResponse { address: <address>, data: <data> }", fn=g,
+               sample="InstantiateResponse{address, data}.encode(&mut buf); buf")
     # instantiate: data = Some(instantiate_response(res.data, &contract_addr))
     key = W + "process_wasm_msg_instantiate"
     f = ctx.need_fn(R, key)
